@@ -254,9 +254,6 @@ func allFunctions(prog *ssa.Program) map[*ssa.Function]bool {
 	return seen
 }
 
-func reflectIntrinsic(eng *Engine, fn *ssa.Function, name string) intrinsic {
-	return nil
-}
 
 // ---- globals and package initialisation ----
 
